@@ -530,16 +530,20 @@ pub fn run(repo: &str, unit_path: &str, canary: bool) -> std::result::Result<Run
                     // `|` alternatives included), body = the arm's block followed by `tail=<expr>` (what the original function
                     // does after the match). Dropped: the dispatcher around the arm; locals it uses become parameters (sig: line).
                     let want = norm_str(armtxt).ok_or(format!("bad arm= text in {target}"))?;
-                    struct FindArm { want: String, found: Option<syn::Arm> }
+                    struct FindArm { want: String, nth: usize, seen: usize, found: Option<syn::Arm> }
                     impl<'ast> syn::visit::Visit<'ast> for FindArm {
                         fn visit_arm(&mut self, a: &'ast syn::Arm) {
                             if self.found.is_none() && norm(&a.pat.to_token_stream()) == self.want {
-                                self.found = Some(a.clone());
+                                self.seen += 1;
+                                if self.seen == self.nth {
+                                    self.found = Some(a.clone());
+                                }
                             }
                             syn::visit::visit_arm(self, a);
                         }
                     }
-                    let mut fa = FindArm { want, found: None };
+                    // `occ=<N>`: the N-th arm with this pattern text in source order (default the first)
+                    let mut fa = FindArm { want, nth: o.get("occ").and_then(|x| x.parse().ok()).unwrap_or(1), seen: 0, found: None };
                     syn::visit::Visit::visit_block(&mut fa, &body);
                     let arm = fa.found.ok_or(format!("lost-anchor arm `{armtxt}` in {target}"))?;
                     let line = arm.fat_arrow_token.spans[0].start().line;
